@@ -72,8 +72,8 @@ def gen_spec(rng, nlayers=None, nwn=None, ngas=None, contribs=None, emission=Fal
             tab = tab * 0.0
         opac[g] = dict(Tg=Tg, Pg=Pg, tab=tab, wn=wn)
     mix = {g: 10 ** rng.uniform(-8, -2) for g in gases}
-    if rng.random() < 0.1:
-        mix[gases[0]] = 0.0
+    if rng.random() < 0.15:
+        mix[rng.choice(gases)] = 0.0
     all_c = ['Absorption', 'CIA', 'Rayleigh', 'SimpleClouds', 'FlatMie']
     if contribs is None:
         contribs = ['Absorption'] + [c for c in all_c[1:] if rng.random() < 0.4]
